@@ -15,6 +15,9 @@ handed to the peer are the successful writes in order.
 
 `c16 wrap <kind> <n> <data> <err>`: the Read wrapper of that kind on one raw result.
 
+`c16 merge <a> <b> <m>`: is `m` a merge of writer A's bytes `a` (all < 0x80) and writer B's `b`
+(all ≥ 0x80)? answer `1`/`0`.
+
 `c16 lock <force> <rb> <wb> <schedule>`: schedule = string of `r`/`w`/`c` moves (reader, writer,
 closer) from the state with a blocked read (`rb`) and/or a blocked write (`wb`);
 answer `<reader pc> <writer pc> <closer pc> <closed>`.
@@ -117,6 +120,10 @@ def handleC16 : List String → String
       let r := if kd == Kind.telnet then telWrap n d err else sysWrap n d err
       s!"d{c16Hex r.1}:{c16Err r.2}"
     | _, _, _, _ => "bad-op"
+  | ["merge", a, b, m] =>
+    match c16Unhex a 0, c16Unhex b 0, c16Unhex m 0 with
+    | some a, some b, some m => b2s (mergeVerdict a b m)
+    | _, _, _ => "bad-op"
   | ["lock", force, rb, wb, sched] =>
     let moves := sched.toList.filterMap fun c =>
       if c == 'r' then some Who.reader else if c == 'w' then some Who.writer
